@@ -258,7 +258,7 @@ theorem run_refines_spec {C : Type} [DecidableEq C] (cfg : Cfg) (cks : J → C) 
 
 /-! Non-vacuity: a history with an informer-start replay, a change outside the projection, a
 change inside it, a resync and a delete, for the scalar filter `.spec.replicas`; checksum = identity. -/
-def exFilter : Filter := .path ["spec", "replicas"]
+def exFilter : Prog := .one (.path ["spec", "replicas"])
 def exObj (r x : Int) : J := .obj [("spec", .obj [("replicas", .num r)]), ("status", .obj [("x", .num x)])]
 def exCfg : Cfg := { types := [.modified, .deleted], filter := some exFilter, keep := true }
 
@@ -415,7 +415,7 @@ error — a Deleted of a cached object whose last state the filter fails on (`.s
 replicas a number) emitted nothing although Deleted is listed, and the object stayed in the cache
 (in every snapshot) for ever. The repaired model reports it and forgets the object. -/
 theorem delete_with_failing_filter_witness :
-    let cfg : Cfg := { types := [.deleted], filter := some (.path ["spec", "replicas", "x"]), keep := true }
+    let cfg : Cfg := { types := [.deleted], filter := some (.one (.path ["spec", "replicas", "x"])), keep := true }
     let good : J := .obj [("spec", .obj [])]
     let bad : J := .obj [("spec", .obj [("replicas", .num 1)])]
     let cache := (handle cfg id [] .added 1 good).1
